@@ -32,6 +32,8 @@ type cacheJanitor[MetadataT any] struct {
 	cacheFns cacheFunctions[MetadataT]
 	subs     config.ConfigSubscriber
 	cfg      *config.Config
+
+	unsubscribeInterval func() // Set once at construction (also called by the cleanup task when its context ends)
 }
 
 func newCacheJanitor[MetadataT any](cfg *config.Config, interval time.Duration, cacheFns cacheFunctions[MetadataT]) *cacheJanitor[MetadataT] {
@@ -43,10 +45,11 @@ func newCacheJanitor[MetadataT any](cfg *config.Config, interval time.Duration, 
 		cfg:             cfg,
 	}
 
-	j.subs.Add(cfg.Cache.CleanupInterval.OnChange(func(newInterval duration.Duration) {
+	j.unsubscribeInterval = cfg.Cache.CleanupInterval.OnChange(func(newInterval duration.Duration) {
 		slog.Info("Cache cleanup interval changed", "new_interval", newInterval)
 		j.intervalChanged <- newInterval.Cast()
-	}))
+	})
+	j.subs.Add(j.unsubscribeInterval)
 
 	return j
 }
@@ -78,6 +81,9 @@ func (j *cacheJanitor[MetadataT]) start(ctx context.Context) {
 				slog.Info("Cache cleanup task stopped")
 				return
 			case <-ctx.Done():
+				// Nobody reads intervalChanged from here on: a later change of the interval would wait
+				// for ever to be taken. The end of the context is a shutdown like stop().
+				j.unsubscribeInterval()
 				slog.Info("Cache cleanup task stopped")
 				return
 			}
